@@ -6,6 +6,9 @@ Cargo.lock).  The only edits to extracted text are *insertions* wrapped in marke
     /*@G<*/ ghost text /*@G>*/          requires/ensures/invariant/decreases/proof blocks/attributes
     /*@R<*/(r: /*@R>*/ T /*@R<*/)/*@R>*/  naming the return value
     /*@B<*/i/*@B:_>*/                   naming an unused loop binder (`_` -> `i`)
+    /*@X<*/.map(|v| Ok(v))/*@X:.map(Ok)>*/   a mechanical rewrite of executable text (eta-expansion of a constructor
+                                        used as a function value, which Verus rejects); the original text is kept in
+                                        the marker and restored before the token-equality check
     /*@D:pub(crate)@*/                  a visibility qualifier dropped from an enum (Verus derives `open`
                                         spec functions for enums and rejects them on non-`pub` items)
 
@@ -34,6 +37,7 @@ def undo_markers(text):
     text = re.sub(r'/\*@G<\*/.*?/\*@G>\*/', ' ', text, flags=re.S)
     text = re.sub(r'/\*@R<\*/.*?/\*@R>\*/', ' ', text, flags=re.S)
     text = re.sub(r'/\*@B<\*/.*?/\*@B:(.*?)>\*/', lambda m: m.group(1), text, flags=re.S)
+    text = re.sub(r'/\*@X<\*/.*?/\*@X:(.*?)>\*/', lambda m: m.group(1), text, flags=re.S)   # mechanical rewrite (eta-expansion)
     text = re.sub(r'/\*@D:(.*?)@\*/', lambda m: m.group(1), text, flags=re.S)   # dropped visibility qualifier
     return text
 
@@ -109,11 +113,17 @@ def annotate_fn(item_text, name, c):
                 edits.append(('replace', kw_at + bm.start(1), kw_at + bm.end(1), '/*@B<*/%s/*@B:_>*/' % lc['binder']))
             # if the source already names the binder, the invariant must use that name; nothing to do
         edits.append((lbrace, ghost(lc['clauses']) + ' '))
+    for rw in c.get('rewrites', []):
+        for mm in re.finditer(rw['find'], msk[m.end():]):
+            a, b = m.end() + mm.start(), m.end() + mm.end()
+            edits.append(('replace', a, b, '/*@X<*/%s/*@X:%s>*/' % (rw['to'], item_text[a:b])))
     for ins in c.get('inserts', []):
-        hits = [mm for mm in re.finditer(ins['after'], msk[body_open:])]
+        pat = ins.get('after') or ins['before']
+        hits = [mm for mm in re.finditer(pat, msk[body_open:])]
         if len(hits) != 1:
-            raise ScanError('ghost insert anchor %r in %s: %d matches' % (ins['after'], name, len(hits)))
-        edits.append((body_open + hits[0].end(), '\n' + ghost(ins['text']) + '\n'))
+            raise ScanError('ghost insert anchor %r in %s: %d matches' % (pat, name, len(hits)))
+        at = hits[0].end() if ins.get('after') else hits[0].start()
+        edits.append((body_open + at, '\n' + ghost(ins['text']) + '\n'))
     out = item_text
     norm = []
     for e in edits:
@@ -186,6 +196,18 @@ class VerusUnit:
                 self.assumed.append(it['name'])
             elif it['kind'] == 'fn':
                 c = dict(it.get('contract', {}))
+                if c.get('rewrites'):
+                    # `to_assoc`: the replacement is the associated type declared in the same impl block (read from the source)
+                    rws = []
+                    for rw in c['rewrites']:
+                        rw = dict(rw)
+                        if rw.get('to_assoc'):
+                            am = re.search(r'\btype\s+%s\s*=\s*([^;]+);' % re.escape(rw['to_assoc']), rs.mask(src)[within[0]:within[1]]) if within else None
+                            if not am:
+                                raise ScanError('associated type %s not found for %s' % (rw['to_assoc'], it['name']))
+                            rw['to'] = src[within[0] + am.start(1):within[0] + am.end(1)].strip()
+                        rws.append(rw)
+                    c['rewrites'] = rws
                 if vacuity and re.search(r'\brequires\b', c.get('spec', '')):
                     c['prologue'] = (c.get('prologue', '') + '\n assert(false); // @vacuity-probe ' + it['name'])
                 gen = annotate_fn(text, it['name'], c)
